@@ -11,7 +11,19 @@
    CSym: bit patterns of f(x,y) and f(y,x); which = 0..4 as above, 5 haversine, 6 hamming, 7 jaccard.
    CBits: thresholds and values are passed multiplied by 2 (so that the threshold 0.5
    is the integer 1); hamBits/jacBits are float32 patterns.
-   CFloatStream: result of the tolerance TEST the harness performs on arbitrary floats. *)
+   CFloatStream: result of the tolerance TEST the harness performs on arbitrary floats.
+   CPq*: product quantiser (shard/vectorstore/product.go), observed through a store built by
+   vectorstore.New over a memory bucket; metric 0 euclidean, 1 dot, 2 cosine (mapped to euclidean
+   by newProductQuantizer); m sub-vectors of length sl, k centroids each; cents = the trained flat
+   centroids, table = the flat centroid distance table, both as float32 patterns.  Everything is
+   recomputed exactly (Z, units of 2^-149) from the bit patterns; when all the data involved is on
+   the grid of multiples of 1/8 up to 16 every float32 operation is exact and the comparison is
+   exact, otherwise a result may deviate by 2^-18 of the sum of the magnitudes of its terms.
+     CPqTable: every table entry (i,j,j') = distFn(centroid j, centroid j'), the diagonal included.
+     CPqCode:  v was written after training; its code is, per sub-vector, a minimiser over the
+               centroids of distFn(sub-vector, centroid) (ties free).
+     CPqPair:  DistanceFromPoint(a)(b) = sum_i distFn(c_i(a), c_i(b)), and = DistanceFromPoint(b)(a).
+     CPqQuery: DistanceFromFloat(q)(b) = sum_i distFn(q_i, c_i(b)) for each listed (code of b, result). *)
 From Coq Require Import List NArith ZArith Bool QArith.
 From Semadb Require Import AsmParams Model_C20.
 Import ListNotations.
@@ -32,7 +44,11 @@ Inductive c20case :=
 | CKern (which : N) (xs ys : list Z) (asmBits goBits : N)
 | CSym (which : N) (bitsXY bitsYX : N)
 | CBits (threshold v1 v2 : list Z) (packed1 packed2 : list N) (hamBits jacBits : N)
-| CFloatStream (ok : bool).
+| CFloatStream (ok : bool)
+| CPqTable (metric m k sl : N) (cents table : list N)
+| CPqCode (metric m k sl : N) (cents v code : list N)
+| CPqPair (metric m k sl : N) (cents codeA codeB : list N) (dAB dBA : N)
+| CPqQuery (metric m k sl : N) (cents q : list N) (obs : list (list N * N)).
 
 Fixpoint absdot (xs ys : list Z) : Z :=
   match xs, ys with x :: xs', y :: ys' => (Z.abs (x * y) + absdot xs' ys')%Z | _, _ => 0%Z end.
@@ -66,6 +82,23 @@ Definition jaccard_close (i u jacBits : N) : bool :=
                    Qle_bool (q - want) q_tol && Qle_bool (want - q) q_tol
        end.
 
+(* product quantiser *)
+Definition pq_shape (m k sl : N) (ncents : nat) : bool :=
+  (0 <? m) && (0 <? k) && (0 <? sl) && (N.of_nat ncents =? m * k * sl).
+Definition pq_code_ok (m k : N) (code : list N) : bool :=
+  (N.of_nat (length code) =? m) && forallb (fun c => c <? k) code.
+Definition nats (l : list N) : list nat := map N.to_nat l.
+Definition pq_close (exact : bool) (abs_terms : Z) (bits : N) (want : Z) : bool :=
+  match f32_to_u bits with
+  | Some g => close_to (pq_tol exact abs_terms) (g * u_unit)%Z want
+  | None => false
+  end.
+Definition pq_verdict (m k sl : N) (cents : list N) (f : list Z -> N) : N :=
+  match f32s_to_u cents with
+  | Some cz => if pq_shape m k sl (length cz) then f cz else 241
+  | None => 241
+  end.
+
 Definition verdict (c : c20case) : N :=
   match c with
   | CKern which xs ys asmB goB =>
@@ -83,6 +116,44 @@ Definition verdict (c : c20case) : N :=
                    (hamB =? f32_bits_of_small_Z (Z.of_N (hamming p1 p2)), 222);
                    (jaccard_close mi mu jacB, 223) ]
   | CFloatStream ok => first_fail [ (ok, 131) ]
+  | CPqTable metric m k sl cents table =>
+      pq_verdict m k sl cents (fun cz =>
+        match f32s_to_u table with
+        | Some tz =>
+            if negb (N.of_nat (length tz) =? m * k * k) then 241
+            else first_fail [ (pq_table_ok metric (forallb on_grid cz) (N.to_nat m) (N.to_nat k) (N.to_nat sl) cz tz, 141) ]
+        | None => 241
+        end)
+  | CPqCode metric m k sl cents v code =>
+      pq_verdict m k sl cents (fun cz =>
+        match f32s_to_u v with
+        | Some vz =>
+            if negb (N.of_nat (length vz) =? m * sl) then 290
+            else first_fail [ (pq_code_ok m k code, 146);
+                              (pq_codes_argmin metric (forallb on_grid cz && forallb on_grid vz) (N.to_nat sl) (N.to_nat k) cz vz 0 (nats code), 142) ]
+        | None => 290
+        end)
+  | CPqPair metric m k sl cents ca cb dAB dBA =>
+      pq_verdict m k sl cents (fun cz =>
+        let sl' := N.to_nat sl in let k' := N.to_nat k in
+        first_fail [ (pq_code_ok m k ca && pq_code_ok m k cb, 146);
+                     (pq_close (forallb on_grid cz) (pq_point_abs metric sl' k' cz (nats ca) (nats cb)) dAB
+                               (pq_point_dist metric sl' k' cz (nats ca) (nats cb)), 143);
+                     (dAB =? dBA, 144) ])
+  | CPqQuery metric m k sl cents q obs =>
+      pq_verdict m k sl cents (fun cz =>
+        match f32s_to_u q with
+        | Some qz =>
+            if negb (N.of_nat (length qz) =? m * sl) then 290
+            else
+              let sl' := N.to_nat sl in let k' := N.to_nat k in
+              let exact := forallb on_grid cz && forallb on_grid qz in
+              first_fail (flat_map (fun o : list N * N =>
+                [ (pq_code_ok m k (fst o), 146);
+                  (pq_close exact (pq_query_abs metric sl' k' cz qz (nats (fst o))) (snd o)
+                            (pq_query_dist metric sl' k' cz qz (nats (fst o))), 145) ]) obs)
+        | None => 290
+        end)
   end.
 
 Fixpoint bad_from (i : N) (cs : list c20case) : list (N * N) :=
